@@ -31,6 +31,11 @@ type l1FileCase struct {
 	// ExplicitHeader: call FlvFileReader.ReadFlvHeader before the first
 	// ReadTag (otherwise the reader skips the header lazily).
 	ExplicitHeader bool `json:"explicit_header"`
+	// Preexisting: bytes of an older recording already at the same path when
+	// the writer opens it (0 = fresh path).  The recorder names its files
+	// <stream>-<unix seconds>.flv, so a stream that is published, unpublished
+	// and published again within one second opens the same path twice.
+	Preexisting int `json:"preexisting,omitempty"`
 }
 
 func l1GenFileCase(t *rapid.T) l1FileCase {
@@ -45,6 +50,9 @@ func l1GenFileCase(t *rapid.T) l1FileCase {
 		c.Tags = append(c.Tags, g)
 	}
 	c.ExplicitHeader = rapid.Bool().Draw(t, "explicitHeader")
+	if rapid.IntRange(0, 3).Draw(t, "reopenSamePath") == 0 {
+		c.Preexisting = rapid.SampledFrom([]int{1, 13, 14, 200, 5000, 300000}).Draw(t, "preexisting")
+	}
 	return c
 }
 
@@ -64,6 +72,18 @@ func l1RunFileCase(c l1FileCase) *pbt.Violation {
 	}
 	defer os.RemoveAll(dir)
 	name := filepath.Join(dir, "rec.flv")
+
+	if c.Preexisting > 0 {
+		// an older recording: a header and one long audio tag's worth of bytes (content is irrelevant, only that
+		// none of it may survive)
+		old := append([]byte("FLV\x01\x05\x00\x00\x00\x09\x00\x00\x00\x00"), make([]byte, c.Preexisting)...)
+		for i := 13; i < len(old); i++ {
+			old[i] = 0x28
+		}
+		if err := os.WriteFile(name, old[:c.Preexisting], 0o644); err != nil {
+			panic(pbt.HarnessError{Msg: "WriteFile: " + err.Error()})
+		}
+	}
 
 	// ---- write ------------------------------------------------------------
 	var w httpflv.FlvFileWriter
@@ -124,7 +144,7 @@ func l1RunFileCase(c l1FileCase) *pbt.Violation {
 		return pbt.V("file/header", "%v; first bytes on disk: %s", err, l1Hex(data))
 	}
 	if len(tags) != len(c.Tags) || len(rest) != 0 {
-		return pbt.V("file/framing", "%d tags written, conforming parser finds %d complete tags and %d left-over bytes in the %d-byte file", len(c.Tags), len(tags), len(rest), len(data))
+		return pbt.V("file/framing", "%d tags written, conforming parser finds %d complete tags and %d left-over bytes in the %d-byte file (%d bytes of an older recording were at the path when it was opened)", len(c.Tags), len(tags), len(rest), len(data), c.Preexisting)
 	}
 	for i, g := range c.Tags {
 		if v := l1CheckRefTag("file", i, g, payloads[i], tags[i]); v != nil {
@@ -171,6 +191,9 @@ func l1ClassifyFileCase(c l1FileCase) (bool, []string) {
 		labels = append(labels, "no-tags")
 	case len(c.Tags) >= 2:
 		labels = append(labels, "tags>=2")
+	}
+	if c.Preexisting > 0 {
+		labels = append(labels, "path-held-older-recording")
 	}
 	if c.ExplicitHeader {
 		labels = append(labels, "explicit-header-read")
